@@ -2,6 +2,7 @@
   Props/C11.lean — C11: Task.wbs always tells the truth about WBS membership.
 -/
 import PjVerif.Lemmas.GraphTasks
+import PjVerif.Lemmas.TaskSrcD
 namespace Pj
 
 theorem C11_step (s : G) (op : Op) (hi : Inv s) (hl : op.legal s) : OwnerOK (step s op).1 :=
@@ -37,5 +38,36 @@ theorem C11_reattach (s : G) (w t : Uid) (hi : Inv s) (hw : s.hidden w = true) (
     (hids : ∀ x y, RTC (par s) x t → TC (par s) y w → s.tid x ≠ s.tid y) :
     ∃ s', chAppend s w t = (s', none) ∧ s'.owner t = some w :=
   reattach s w t hi hw ht hdet hpar hids
+
+/-! ### the tie of the relation setters of `Task` to the current source, by translation (tools/extract_task.py → Extracted/TaskSrc.lean,
+    Lemmas/TaskSrc*.lean): the statements above are about the model's `setParent` / `setPreds` / `setSuccs` / `setChildren`; these say that
+    the model's functions are what the CURRENT task.py computes -/
+
+/-- running the translated `parent` setter (with `_find_root`, `_collect_subtree`, `_has_id_intersection`, `_linked_with_any`, `_attach`,
+    `_detach`, `all_parents`, `all_children` as translated callees) on the encoding of a well-formed state gives the encoding of the
+    model's new state when the model accepts and the model's error when it rejects - unless the model's fuel runs out -/
+theorem C11_source_set_parent (s : G) (hw : WF s) (t : Uid) (p : Option Uid) (F : Nat) (hF : s.n + 6 ≤ F)
+    (hrec : (setParent s t p).2 ≠ some (.crash .recursion)) :
+    TaskSrc.interpSetParent F t p (TaskSrc.encSt s) = TaskSrc.setterResult (TaskSrc.encSt s) (setParent s t p) :=
+  TaskSrc.interpSetParent_eq_wf s hw t p F hF hrec
+
+/-- the translated `children` setter (validations, release of the old children, the loop of `v.parent = self` assignments - each
+    running the translated `parent` setter on an intermediate state) is the model's `setChildren`, for every state -/
+theorem C11_source_set_children (s : G) (st : PyLite.PState) (hh : st.heap = TaskSrc.encHeap s) (h : Uid) (v : PyLite.Val)
+    (l : List Uid) (hv : TaskSrc.ValueOf v l) (F : Nat) (hF : s.n + 6 ≤ F) (hrec : (setChildren s h l).2 ≠ some (.crash .recursion)) :
+    TaskSrc.interpSetChildren F h v st = TaskSrc.setterResult st (setChildren s h l) :=
+  TaskSrc.interpSetChildren_eq s st hh h v l hv F hF hrec
+
+/-- the translated `_attach` / `_detach` write the owner on exactly the task and its descendants (`setOwners`) -/
+theorem C11_source_attach (w : Uid) (f : Nat) (s : G) (st : PyLite.PState) (hh : st.heap = TaskSrc.encHeap s) (t : Uid) (r : List Uid)
+    (h : descF s.children f t = some r) (F : Nat) (hF : f ≤ F) :
+    (TaskSrc.Hd F).fnV Extracted.fn_Task_attach [.atom (.ref t), .atom (.ref w)] st =
+      .ok (.atom .none, TaskSrc.withG st (setOwners s (t :: r) (some w))) :=
+  TaskSrc.attach_spec w f s st hh t r h F hF
+
+theorem C11_source_detach (f : Nat) (s : G) (st : PyLite.PState) (hh : st.heap = TaskSrc.encHeap s) (t : Uid) (r : List Uid)
+    (h : descF s.children f t = some r) (F : Nat) (hF : f ≤ F) :
+    (TaskSrc.Hd F).fnV Extracted.fn_Task_detach [.atom (.ref t)] st = .ok (.atom .none, TaskSrc.withG st (setOwners s (t :: r) none)) :=
+  TaskSrc.detach_spec f s st hh t r h F hF
 
 end Pj
